@@ -72,6 +72,7 @@ def gen_case(tape, tier):
     cfg["entry"] = tape.pick(["map", "map", "map_async"], "entry")  # (map_async only where an executor is in use)
     cfg["mistaken_call"] = bool(tape.coin(0.15, "mistaken-call"))
     cfg["edit_results"] = bool(tape.coin(0.6, "edit-results"))
+    cfg["upgraded"] = bool(tape.coin(0.1, "library-upgraded"))  # the resume is made by another release of the library
     if cfg["edit_results"] and tape.coin(0.5, "a-list-valued-function"):
         plain = [fd for fd in w["functions"] if len(fd["outputs"]) == 1 and fd.get("mapspec") and not fd["mapspec"].startswith("...")
                  and not any(fd.get(k) for k in ("out_shape", "none_mod", "result_like", "data_like", "seq_out"))]
@@ -365,6 +366,23 @@ def run_attempt(w, cfg, root, tape, *, attempt, cleanup, interruption=None, inpu
     return at
 
 
+def _other_release(folder, info):
+    """The interrupted run was made by another release of the library: run_info.json says so (durable state written by
+    the earlier process).  Stored work is stored work whichever release stored it."""
+    import json
+
+    path = os.path.join(folder, "run_info.json")
+    try:
+        with simfs.real_open(path) as f:
+            d = json.load(f)
+        d["pipefunc_version"] = "0.0.1.dev0+older"
+        with simfs.real_open(path, "w") as f:
+            json.dump(d, f, indent=4)
+        info["probes"]["resumed_by_another_release"] = info["probes"].get("resumed_by_another_release", 0) + 1
+    except (OSError, ValueError):
+        pass  # no (complete) run_info.json yet
+
+
 def _peek(root, folder, info):
     """Between the interruption and the resume somebody looks at the partial run - through a relative path, from
     inside the scratch directory - and the working directory is another one afterwards.  Reading must not change
@@ -504,6 +522,8 @@ def _run_plan(w, cfg, plan, ref, tape, *, seen_digests=None):
                     last_ev = a.trace[-1]
                     it["hit"] = ("torn-" if it.get("torn") and last_ev[1] == "write" else "") + f"{last_ev[1]}:{file_class(last_ev[2])}"
                     it["phase"] = "run" if any(e[1] in ("mkdir", "open", "write", "replace") for e in a.trace[:-1]) else "cleanup"
+                if cfg.get("upgraded"):
+                    _other_release(folder, info)
                 if cfg.get("peek"):
                     _peek(root, folder, info)
                 td = simfs.tree_digest(root)
